@@ -494,6 +494,7 @@ func (s *Sess) exec(in ssa.Instruction, st *State) {
 	case *ssa.If, *ssa.Jump:
 		return
 	case *ssa.Return:
+		s.checkAssertsAtReturn(x, st)
 		var vals []Val
 		for _, r := range x.Results {
 			v := s.val(r)
@@ -778,7 +779,7 @@ func (s *Sess) execConvert(x *ssa.Convert, st *State) {
 	case isInteger(from) && isInteger(to):
 		bits, _ := intBits(to)
 		lo, hi, _ := intRange(to)
-		if s.arithChecked {
+		if s.convChecked {
 			s.oblige(st, "conv", fmt.Sprintf("conv@%d", s.ord[x]), fmt.Sprintf("(and (<= %s %s) (<= %s %s))", lo, v.t, v.t, hi), x.Pos(), "conversion does not wrap: "+x.String())
 		}
 		if bits == 0 {
@@ -817,9 +818,11 @@ func (s *Sess) execConvert(x *ssa.Convert, st *State) {
 			arr = fmt.Sprintf("(%s %s)", s.uf("runes.of", []string{"String"}, "(Array Int Int)"), v.t)
 			ln = s.define("rl", "Int", fmt.Sprintf("(%s %s)", s.uf("runes.len", []string{"String"}, "Int"), v.t))
 			s.assume(fmt.Sprintf("(and (<= 0 %s) (<= %s (str.len %s)))", ln, ln, v.t))
+			s.assume(fmt.Sprintf("(forall ((i Int)) (! (and (<= 0 (select %s i)) (<= (select %s i) 1114111)) :pattern ((select %s i))))", arr, arr, arr))
 		} else {
 			arr = fmt.Sprintf("(%s %s)", s.uf("bytes.of", []string{"String"}, "(Array Int Int)"), v.t)
 			ln = fmt.Sprintf("(str.len %s)", v.t)
+			s.assume(fmt.Sprintf("(forall ((i Int)) (! (and (<= 0 (select %s i)) (<= (select %s i) 255)) :pattern ((select %s i))))", arr, arr, arr))
 		}
 		s.setRegion(st, key, s.elemSort(sl.Elem()), fmt.Sprintf("(store %s %s %s)", s.region(st, key, s.elemSort(sl.Elem())), base, arr))
 		s.setVal(x, fmt.Sprintf("(mk-slice %s 0 %s %s)", base, ln, ln), st)
